@@ -3,3 +3,7 @@
 #include "canary.h"
 #include "K_arr_is_contiguous.c"
 void h_K_arr_is_contiguous(void) { struct ARRN* a; K_arr_is_contiguous(a); }
+#include "K_arrn_init.c"
+#include "K_arrn_resize.c"
+void h_K_arrn_init(void) { struct ARRN* a; struct RANGEN* r; K_arrn_init(a, r, nondet_long(), nondet_bool()); }
+void h_K_arrn_resize(void) { struct ARRN* a; struct RANGEN* r; g_k = nondet_int(); g_sub_calls = 0; g_sub_bad = 0; K_arrn_resize(a, r); }
